@@ -7,17 +7,23 @@ EXTENDS Naturals, Sequences, TLC, Json, FiniteSets
 Loops == {"while", "for-growing-array", "for-range-huge", "recursion", "mutual-recursion", "closure-recursion",
           "method-recursion", "map-callback", "filter-callback", "forEachKey-callback", "forEachStored-callback",
           "forEachController-callback", "forEachAttachment-callback", "string-doubling", "array-doubling",
-          "dict-growing", "nested-value", "interface-default-recursion", "condition-recursion"}
+          "dict-growing", "nested-value", "interface-default-recursion", "condition-recursion",
+          \* recursion whose every edge goes through a natively invoked function: a higher-order
+          \* built-in's callback or a constructor (initializer)
+          "map-callback-recursion", "optional-map-recursion", "forEachKey-recursion", "constructor-recursion",
+          "filter-callback-recursion"}
 Bodies == {"empty", "arith", "concat", "append", "dict-insert", "call", "resource", "log", "emit", "optional", "cast", "ref"}
 Limits == {"computation-small", "computation-large", "memory", "depth", "computation+memory"}
 \* constructs that carry their own work and take no separate body
 NoBody == {"string-doubling", "array-doubling", "dict-growing", "nested-value", "for-range-huge"}
 Recursive == {"recursion", "mutual-recursion", "closure-recursion", "method-recursion",
-              "interface-default-recursion", "condition-recursion"}
+              "interface-default-recursion", "condition-recursion",
+              "map-callback-recursion", "optional-map-recursion", "forEachKey-recursion", "constructor-recursion",
+              "filter-callback-recursion"}
 Shapes == {[loop |-> l, body |-> b, limit |-> m] : l \in Loops, b \in Bodies, m \in Limits}
 Valid(s) == /\ (s.loop \in NoBody => s.body = "empty")
             /\ (s.limit = "depth" => s.loop \in Recursive \ {"condition-recursion"})
-            /\ (s.loop \in {"filter-callback", "condition-recursion"} => s.body \in {"empty", "arith", "optional", "cast"})   \* view context: pure bodies only                    \* only recursion reaches the depth limit
+            /\ (s.loop \in {"filter-callback", "condition-recursion", "filter-callback-recursion"} => s.body \in {"empty", "arith", "optional", "cast"})   \* view context: pure bodies only                    \* only recursion reaches the depth limit
             /\ (s.limit = "memory" => (s.loop \in NoBody \/ s.body \in {"concat", "append", "dict-insert", "resource", "call", "optional"} \/ s.loop \in Recursive))
 \* every shape runs with a finite computation limit and a finite call-depth limit (both always
 \* configured); the named limit is the one expected to trip first, but Metering.tla allows any of
